@@ -207,23 +207,37 @@ def finish(pid, tier, seed, cfg, reports, drift, extra, t0):
     import shutil
     shutil.rmtree(os.path.join(HERE, "replays", pid), ignore_errors=True)   # replay files belong to one run
     os.makedirs(os.path.join(HERE, "replays", pid), exist_ok=True)
+    groups = {}
     for fid, o in failed:
         kf = next((k for k in known["findings"] if match_finding(k, pid, fid, o)), None)
         if kf is not None:
             known_hits.append({"finding": kf["id"], "obligation": o["name"], "what": kf["what"]})
             continue
-        path = os.path.join("replays", pid, sanitize(o["name"]) + ".json")
-        rp = {"property": pid, "function": fid, "obligation": o["name"], "clause": o.get("clause"), "kind": o.get("kind"),
-              "solver": {"backend": o.get("backend"), "verdict": "sat (counter-model)" if o.get("model") is not None else "sat", "reason": o.get("reason"), "goal": o.get("goal")},
-              "counter_model": o.get("model"), "repo": REPO, "custom_replay": o.get("custom_replay"),
-              "exit_kind": o.get("kind"), "modules": cfg.get("modules"), "replay_ctx": (reports.get(fid) or {}).get("replay_ctx")}
-        with open(os.path.join(HERE, path), "w") as f:
-            json.dump(rp, f, indent=1)
-        res = o.get("native") or native_replay(pid, fid, rp, os.path.join(HERE, path))
-        rp["native_replay"] = res
-        with open(os.path.join(HERE, path), "w") as f:
-            json.dump(rp, f, indent=1)
-        violations.append({"obligation": o["name"], "replay": path, "reproduced": res.get("reproduced")})
+        groups.setdefault((fid, o.get("kind"), o.get("clause")), []).append(o)
+    # one violation per (function, clause): the same clause usually fails on several paths; each path's counter-model is tried
+    # natively until one reproduces (at most 4 attempts), the other failing paths are listed in the replay file
+    for (fid, _kind, _clause), obs in groups.items():
+        best = None
+        for o in obs[:4]:
+            path = os.path.join("replays", pid, sanitize(o["name"]) + ".json")
+            rp = {"property": pid, "function": fid, "obligation": o["name"], "clause": o.get("clause"), "kind": o.get("kind"),
+                  "solver": {"backend": o.get("backend"), "verdict": "sat (counter-model)" if o.get("model") is not None else "sat", "reason": o.get("reason"), "goal": o.get("goal")},
+                  "counter_model": o.get("model"), "repo": REPO, "custom_replay": o.get("custom_replay"),
+                  "exit_kind": o.get("kind"), "modules": cfg.get("modules"), "replay_ctx": (reports.get(fid) or {}).get("replay_ctx"),
+                  "same_clause_fails_on_paths": [x["name"] for x in obs if x is not o]}
+            with open(os.path.join(HERE, path), "w") as f:
+                json.dump(rp, f, indent=1)
+            res = o.get("native") or native_replay(pid, fid, rp, os.path.join(HERE, path))
+            rp["native_replay"] = res
+            with open(os.path.join(HERE, path), "w") as f:
+                json.dump(rp, f, indent=1)
+            cand = {"obligation": o["name"], "replay": path, "reproduced": res.get("reproduced"), "paths": len(obs)}
+            if best is None:
+                best = cand
+            if res.get("reproduced"):
+                best = cand
+                break
+        violations.append(best)
     seen_kf = set()
     for k in known_hits:
         if k["finding"] not in seen_kf:
